@@ -4461,6 +4461,12 @@ class ParseCtx:
         name = from_tree.value
 
         if type(context) is not MacroArgumentKind:
+            # an argument of the innermost macro that uses this name wins over anything global, whatever its kind
+            for entry in reversed(self.bound_argument_stack):
+                bound_kinds = [bound_kind for bound_kind, bound_name in entry if bound_name == name]
+                if bound_kinds:
+                    context = [x for x in context if x in bound_kinds] + [x for x in context if x not in bound_kinds]
+                    break
             for attempt in context:
                 try:
                     return self._lookup_named_entity(attempt, from_tree), attempt
